@@ -19,3 +19,32 @@ extern "C" void harness_segpt_parallel() {
   if (!small) VKNOWN(!(D != 0 && !ok));           // "reported parallel although the directions are not" - the recorded class
   verif_reach();
 }
+
+// C03 (bounding box clause) / C18: whatever two non-parallel lines it is given - crossing inside the segments or not - the point
+// GetSegmentIntersectPt returns lies within the bounding box of the FIRST segment (the parameter is clamped to [0,1] on it), so a
+// solution vertex computed from it cannot leave the bounding box of the inputs.
+#ifndef SLIM
+#define SLIM 3
+#endif
+extern "C" void harness_segpt_within_first_segment() {
+  Point64 a(nd_range(-SLIM, SLIM), nd_range(-SLIM, SLIM)), b(nd_range(-SLIM, SLIM), nd_range(-SLIM, SLIM));
+  Point64 c(nd_range(-SLIM, SLIM), nd_range(-SLIM, SLIM)), d(nd_range(-SLIM, SLIM), nd_range(-SLIM, SLIM));
+  Point64 ip;
+  bool ok = GetSegmentIntersectPt(a, b, c, d, ip);
+  int64_t det = (b.y - a.y) * (d.x - c.x) - (b.x - a.x) * (d.y - c.y);
+  VA(ok == (det != 0));                                    // small integers: the determinant is exact in double
+  if (ok) {
+    VA(ip.x >= (a.x < b.x ? a.x : b.x) && ip.x <= (a.x < b.x ? b.x : a.x));
+    VA(ip.y >= (a.y < b.y ? a.y : b.y) && ip.y <= (a.y < b.y ? b.y : a.y));
+  }
+  verif_reach();
+}
+
+// C09/C10: the orientation kernel used by GetSegmentIntersection (rectangle clipping, |coordinates| <= 2^40) forms its products in
+// double: no signed 64-bit overflow for any points in that range (every nsw instruction of the real code is asserted)
+extern "C" void harness_crossproduct_no_overflow_40() {
+  Point64 p1(c40(), c40()), p2(c40(), c40()), p3(c40(), c40());
+  double cp = CrossProduct(p1, p2, p3); (void)cp;
+  double dp = DotProduct(p1, p2, p3); (void)dp;
+  verif_reach();
+}
